@@ -46,6 +46,7 @@ class World:
         self.returned = []
         self.pc = 0
         self.in_handler = 0
+        self.stopped = []                # children that are stopped and whose stop has not been reported by waitpid
         self.nested_q = []               # (pid, rc): children that exit while a handler is in its last waitpid()
 
     # --- environment
@@ -55,6 +56,12 @@ class World:
         self.zombies.append((pid, decoded, status))
         self.kpending = True
         self.log.append(("exit", pid, decoded))
+
+    def stop_child(self, pid):
+        """job control: the child is stopped (SIGSTOP / SIGTSTP); the parent gets SIGCHLD, there is nothing to reap"""
+        self.stopped.append(pid)
+        self.kpending = True
+        self.log.append(("stop",))
 
     def deliver(self):
         if not self.kpending:
@@ -99,6 +106,9 @@ class World:
         if self.zombies:
             p, _rc, status = self.zombies.pop(0)
             return p, status
+        if self.stopped and (options & os.WUNTRACED):
+            # only a caller that ASKS for stopped children is told about them (status: stopped by SIGSTOP)
+            return self.stopped.pop(0), (19 << 8) | 0x7F
         no_children = self.running == 0
         if self.in_handler == 1 and self.nested_q:
             # This call has found nothing more to reap.  Before the handler executes its next bytecode another child
@@ -134,6 +144,9 @@ class World:
             ev = self.schedule.pop(0)
             if ev[0] == "nested":
                 self.nested_q.append((ev[1], ev[2]))
+                continue
+            if ev[0] == "stop":
+                self.stop_child(ev[1])
                 continue
             if ev[0] == "spawn":
                 self.running += 1
@@ -212,6 +225,8 @@ def run_schedule(schedule):
                     w.exit_child(ev[1], ev[2])
                 elif ev[0] == "nested":
                     w.nested_q.append((ev[1], ev[2]))
+                elif ev[0] == "stop":
+                    w.stop_child(ev[1])
                 elif ev[0] == "deliver":
                     w.deliver()
                 elif ev[0] == "handler":
@@ -253,7 +268,7 @@ def run_schedule(schedule):
 
 def coq_event(e):
     return {"exit": lambda: "EvExit %d %d" % (e[1], e[2]), "deliver": lambda: "EvDeliver", "handler": lambda: "EvHandler",
-            "call": lambda: "EvCall", "test": lambda: "EvTest", "read": lambda: "EvRead"}[e[0]]()
+            "call": lambda: "EvCall", "test": lambda: "EvTest", "read": lambda: "EvRead", "stop": lambda: "EvStop"}[e[0]]()
 
 
 def ser_world(w):
@@ -293,6 +308,10 @@ def gen_schedule(rng):
                 sched.append(("deliver",))
         elif r < 0.5:
             sched.append(("deliver",))
+        elif r < 0.55 and pending:
+            sched.append(("stop", pending[-1]))          # a running child is stopped (and continued later): SIGCHLD, nothing to reap
+            if rng.random() < 0.7:
+                sched.append(("deliver",))
         elif r < 0.6:
             sched.append(("handler",))
         elif waits < sum(1 for p in reg if reg[p]):
@@ -320,6 +339,10 @@ def protocol_part(chk, tier):
         [("spawn",), ("wait",), ("exit", 7, 0), ("deliver",)],
         # one SIGCHLD for three exits
         [("spawn",)] * 3 + [("exit", 1, 0), ("exit", 2, 3), ("exit", 3, 137), ("deliver",), ("wait",), ("wait",), ("wait",)],
+        # a child is stopped while wait() sleeps: a wake-up with nothing to reap; wait() must go back to sleep and return
+        # only the real exit
+        [("spawn", 1, True), ("wait",), ("stop", 1), ("deliver",), ("exit", 1, 0), ("deliver",)],
+        [("spawn", 1, True), ("spawn", 2, True), ("stop", 2), ("deliver",), ("handler",), ("wait",), ("exit", 1, 3), ("deliver",), ("wait",), ("exit", 2, 0), ("deliver",)],
         # a second child exits while the handler that reaps the first one is in its last waitpid(): nested handler run
         [("spawn", 1, True), ("spawn", 2, True), ("wait",), ("nested", 2, 0), ("exit", 1, 0), ("deliver",), ("wait",)],
         [("spawn", 1, True), ("spawn", 2, True), ("nested", 2, 3), ("exit", 1, 0), ("deliver",), ("handler",), ("wait",), ("wait",)],
